@@ -60,6 +60,8 @@ step = st.one_of(
     st.tuples(st.just("W"), st.sampled_from([1, 3, 7, 8, 9, 11, 13, 15, 18, 21]), st.integers(1, 255), st.integers(0, 2000)),
     st.tuples(st.just("a"), st.sampled_from([0, 1, 1, 1, 2, 2, 3, 4, 5]), st.integers(0, 4000000), st.integers(1, 255), st.integers(0, 2000)),
     st.tuples(st.just("a"), st.sampled_from([1, 1, 2, 3, 5]), st.integers(0, 4000000), st.integers(1, 255), st.integers(0, 2000)),
+    # (the end of the big .bss arrays and their 4 kB boundaries)
+    st.tuples(st.just("a"), st.sampled_from([1, 1, 2]), st.integers(0, 100000).map(lambda x: 4 * x + 1 + x % 2), st.integers(1, 255), st.integers(0, 2000)),
     st.tuples(st.just("C")),
     st.tuples(st.sampled_from(BLOCKING)),
     st.tuples(st.sampled_from(BLOCKING)),
